@@ -31,9 +31,12 @@ def main():
     try:
         demo_txt = open(os.path.join(src, 'demo.txt')).read()
         tests = [f for f in os.listdir(src) if f.endswith('_test.go')]
-        m = re.search(r'(internal/[a-z]+)/', demo_txt)
+        m0 = re.search(r'(internal/[a-z]+)/seeded_', demo_txt)
+        m = m0 or re.search(r'(internal/[a-z]+)/', demo_txt)
         dest_dir = m.group(1) if (m and 'root' not in demo_txt.lower().split('internal/')[0][-200:]) else '.'
-        if re.search(r'(?i)(placement|place|copy)[^\n]*root', demo_txt):
+        if m0:
+            dest_dir = m0.group(1)
+        elif re.search(r'(?i)(placement|place|copy)[^\n]*root', demo_txt):
             dest_dir = '.'
         m2 = re.search(r"-run[ =]+'?([A-Za-z0-9_|]+)'?", demo_txt)
         runpat = m2.group(1) if m2 else 'TestSeeded'
